@@ -290,8 +290,12 @@ def rfc_hash(kex, v_c, v_s, ex, K):
         by.setdefault((e["dir"], e["type"]), e)
     gex = None
     if is_gex(kex):
-        req = by[("out", 34)]["payload"]
-        mn, n, mx = struct.unpack(">III", req[1:13])
+        if ("out", 34) in by:
+            req = by[("out", 34)]["payload"]
+            mn, n, mx = struct.unpack(">III", req[1:13])
+        else:  # SSH_MSG_KEX_DH_GEX_REQUEST_OLD
+            (n,) = struct.unpack(">I", by[("out", 30)]["payload"][1:5])
+            mn = mx = None
         (p, g), _ = sshsig.read_strings(by[("in", 31)]["payload"][1:], 2)
         gex = (mn, n, mx, sshsig.to_int(p), sshsig.to_int(g))
         (e_body,), _ = sshsig.read_strings(by[("out", 32)]["payload"][1:], 1)
